@@ -564,7 +564,18 @@ func engineLevel(enc *json.Encoder, tmp string, rng *rand.Rand, ngroups int) {
 		os.Exit(3)
 	}
 	origPrint, _ := printNoComments(src)
+	// a different file with the same functions is run through the same engine before every run of the target: texts
+	// must come from the file at hand, never from bytes or offsets remembered from another file
+	other := []byte(strings.Replace(targetPrelude, "package target", "package target // zzzzzzzzzzzzzzzzzzzzzzzzzzzzzzzzzzzzzzzzzzzz", 1) +
+		string(src[len(targetPrelude):]))
+	other = []byte(strings.ReplaceAll(string(other), "1 +  2", "3 +   4"))
+	t2, err := hutil.CheckTarget(tmp, "c03other/target.go", other)
+	if err != nil {
+		fmt.Fprintln(os.Stderr, "other target:", err)
+		os.Exit(3)
+	}
 	for _, L := range []int{0, 20, 1000} {
+		hutil.Run(e, t2, L, "", nil)
 		reports, pmsg := hutil.Run(e, t, L, "", nil)
 		if pmsg != "" {
 			enc.Encode(engineObs{K: "engine", L: L, Panic: pmsg})
